@@ -1129,6 +1129,10 @@ class Envelope:
         if self.state is None:
             return self.fock.resize(new_dimensions)
 
+        # trace_out (used below for the shrink guard) moves the fock space to the
+        # front; reorder first so the tensor view taken here stays valid
+        self.reorder(self.fock)
+
         reshape_shape = [-1, -1]
         assert isinstance(self.fock.dimensions, int)
         assert isinstance(self.fock.index, int)
